@@ -64,12 +64,15 @@ def make_payload(kind, nrec, variant, sdir, rng):
             size = 0
         else:
             size = [(nrec - 1) * CHUNK + 1, nrec * CHUNK, nrec * CHUNK - 1, (nrec - 1) * CHUNK + CHUNK // 2][variant % 4]
-        name = ["f.bin", "with space.txt", "ünï.dat", "-dash", "trailing.tmp"][variant % 5]
+        # (names: ordinary, with a space, non-ASCII in NFC, leading dash, ".tmp"; and names that are *not* in NFC form as
+        # given - decomposed accent as macOS produces, ANGSTROM SIGN, ligature: the receiver must get exactly these)
+        names = ["f.bin", "with space.txt", "ünï.dat", "-dash", "trailing.tmp", "cafe\u0301.txt", "\u212bngstrom \ufb01le.bin"]
+        name = names[(variant + rng.randrange(len(names))) % len(names)]
         with open(os.path.join(sdir, name), "wb") as f:
             f.write(rng.randbytes(size))
         return name, size
     # directory tree with an empty directory, an empty file, odd names and (nrec-dependent) bulk
-    root = os.path.join(sdir, "tree %d" % variant)
+    root = os.path.join(sdir, ["tree %d", "tre\u0301e %d", "\u212b tree %d"][rng.randrange(3)] % variant)
     os.makedirs(os.path.join(root, "sub", "deeper"))
     os.makedirs(os.path.join(root, "empty dir"))
     with open(os.path.join(root, "a.txt"), "wb") as f:
@@ -283,7 +286,9 @@ def run(prop, tier):
         cov["badhash_spellings"] = BAD_HASHES * len(bh)
         texts = ["hello", " ", "multi\nline\ttab", "ünïcode ☃", "quote'and\"dq", "\x1b[31mred", "x" * 5000,
                  # quotes and backslashes at the edges, where a careless un-quoting of repr() goes wrong
-                 "'", '"', "'hello'", '"hello"', 'say "cheese"', "rock 'n'", "''", "\\", "ends with backslash\\", "'\"", "a\x00b", "\x7f"]
+                 "'", '"', "'hello'", '"hello"', 'say "cheese"', "rock 'n'", "''", "\\", "ends with backslash\\", "'\"", "a\x00b", "\x7f",
+                 # not in NFC form as given: a text message is reproduced exactly, not normalised
+                 "cafe\u0301", "\u212b and \ufb01", "\u1100\u1161"]
         for i, text in enumerate(texts):
             tid += 1
             records.append(run_text_case(tid, text))
